@@ -121,6 +121,9 @@ func H16_Manager() {
 		starts, closes := a.starts, a.closes
 		ev := verif.Choose(nm("ev", i), 4)
 		a.next = verif.Choose(nm("out", i), 3)
+		if shards := verif.Param("shards", 1); shards > 1 && i == 0 {
+			verif.Assume((ev*3+a.next)%shards == verif.Param("shard", 0))
+		}
 		switch ev {
 		case 0: // register
 			m.Register(a)
